@@ -6018,3 +6018,39 @@ func ruleRuleShapedSkip(prop string) ruleFn {
 		}
 	}
 }
+
+// CACHE-LOC-STICKY (C17): an entry that has its location keeps it.
+func ruleCacheLocSticky(w *World, r *Report) {
+	r.Rule("CACHE-LOC-STICKY", "the location of a cache entry (CachedLocation.Location) is written only with the result of System.OpenLocation — never reset to nil (or replaced by anything else) once it is there.  Requests are handed the entry's instance; the clean-up after a failed open deletes exactly the entries that have no location.  An entry whose location is reset while requests use the instance is evicted under them, the next request loads a second instance, and an acknowledged write (a CreateLocation in flight, say) is not in what the cache serves", 1)
+	open := w.Method("sys", "System", "OpenLocation")
+	n := 0
+	for _, fn := range w.Funcs {
+		if w.RelPkg(fn) != "sys" || isTestFile(w, fn) {
+			continue
+		}
+		allInstrs(fn, func(in ssa.Instruction) {
+			st, ok := storesToField(in, cachedLoc, "Location")
+			if !ok {
+				return
+			}
+			// a fresh entry's initialisation (composite literal in its constructor) is not a reset
+			if isFreshAt(addrBase(st.Addr), in) {
+				return
+			}
+			n++
+			key := "fn=" + fname(fn) + " store=Location#" + itoa(n)
+			fromOpen := dependsOn(st.Val, func(v ssa.Value) bool {
+				c, ok := v.(*ssa.Call)
+				return ok && c.Common().StaticCallee() == open
+			})
+			if isNilConst(st.Val) || !fromOpen {
+				r.violation("CACHE-LOC-STICKY", "fn="+fname(fn), w.PosOf(in), "the entry's location is overwritten with something that is not the result of OpenLocation (nil, here: the entry becomes `has no location` while requests may be using the instance)")
+			} else {
+				r.ok("CACHE-LOC-STICKY", key, w.PosOf(in), "set from OpenLocation's result")
+			}
+		})
+	}
+	if n == 0 {
+		r.exempt("CACHE-LOC-STICKY", "field="+cachedLoc+".Location", "", "nothing stores into CachedLocation.Location: shape not recognised, not decided")
+	}
+}
